@@ -187,6 +187,9 @@ func (e *emitter) assigned(nodes ...ast.Node) []*types.Var {
 					}
 				}
 				callee, lib := e.g.calleeOf(e.fi.pkg, s)
+				if lib == "(*strings.Builder).Write" || lib == "(*strings.Builder).WriteString" {
+					add(s.Fun.(*ast.SelectorExpr).X)
+				}
 				if callee != nil {
 					for i, a := range e.g.callArgs(e.fi.pkg, s, callee) {
 						if i < len(callee.mut) && callee.mut[i] {
